@@ -6,6 +6,7 @@ package interp
 
 import (
 	"fmt"
+	"math"
 	"go/token"
 	"go/types"
 	"strconv"
@@ -108,6 +109,11 @@ func (i *interpreter) zzCall(fr *frame, fn *ssa.Function, args []value) value {
 	px := i.px
 	name := fn.Name()
 	anyBV := func(w int) value { return px.fresh(strArg(args[0]), kBV, w) }
+	if i.cfg.Pinned != nil {
+		if v, ok := i.pinnedCall(fn, name, args); ok {
+			return v
+		}
+	}
 	switch name {
 	case "AnyInt", "AnyInt64", "AnyUint", "AnyUint64", "AnyUintptr":
 		return anyBV(64)
@@ -751,3 +757,68 @@ func intErrorf(fr *frame, a []value) value {
 }
 
 var errorIface = types.Universe.Lookup("error").Type().Underlying().(*types.Interface)
+
+// pinnedCall gives Any*/UF* their model values during a concrete
+// re-execution.
+func (i *interpreter) pinnedCall(fn *ssa.Function, name string, args []value) (value, bool) {
+	px := i.px
+	rt := func() types.Type { return fn.Signature.Results().At(0).Type() }
+	parseU := func(s string) uint64 {
+		if strings.HasPrefix(s, "-") {
+			v, _ := strconv.ParseInt(s, 10, 64)
+			return uint64(v)
+		}
+		u, _ := strconv.ParseUint(s, 10, 64)
+		return u
+	}
+	switch {
+	case strings.HasPrefix(name, "Any"):
+		base := strArg(args[0])
+		n := px.occ[base]
+		px.occ[base] = n + 1
+		vals := i.cfg.Pinned[base]
+		txt := "0"
+		if n < len(vals) {
+			txt = vals[n]
+		}
+		switch name {
+		case "AnyBool":
+			return txt == "true", true
+		case "AnyFloat64":
+			return math.Float64frombits(parseU(txt)), true
+		case "AnyFloat32":
+			return math.Float32frombits(uint32(parseU(txt))), true
+		case "AnyIntIn", "AnyIntMath":
+			return int(parseU(txt)), true
+		}
+		return goTypeValue(rt(), parseU(txt)), true
+	case strings.HasPrefix(name, "UF"):
+		fnName := strArg(args[0])
+		var key []string
+		for _, a := range args[1].([]value) {
+			key = append(key, strconv.FormatUint(asUint64Any(a), 10))
+		}
+		var ret string
+	rows:
+		for _, r := range i.cfg.PinnedUF[fnName] {
+			if len(r) != len(key)+1 {
+				continue
+			}
+			for k := range key {
+				if r[k] != key[k] {
+					continue rows
+				}
+			}
+			ret = r[len(r)-1]
+			break
+		}
+		switch name {
+		case "UFBool":
+			return ret == "true", true
+		case "UFUint32":
+			return uint32(parseU(ret)), true
+		}
+		return int64(parseU(ret)), true
+	}
+	return nil, false
+}
